@@ -736,6 +736,7 @@ func runC16(e *env) {
 	}
 
 	// ----- JavaScript side -----
+	c16AutoescapeOn(e, g, cases)
 	c16JS(e, src, cases)
 }
 
